@@ -2198,3 +2198,56 @@ func ruleInputSizedExternalCalls(c *Check, p *Program, rule string) {
 	}
 	c.Cond(n >= 1, rule, "reader#input-numbers-leaving-the-module", "", "call sites that pass input-derived numbers outside the module were found (the skippable-frame length)", fmt.Sprintf("%d sites", n), "no such call site found (expected io.CopyN for skippable frames)")
 }
+
+// R17.13: after Close further writes fail. Every return of Writer.Write / Writer.ReadFrom that is reachable in
+// closedState yields an error that cannot be nil. (Returning the latched error is not enough: after a clean Close the
+// latch is empty, and (0, nil) for a non-empty buffer also breaks the io.Writer contract.)
+func ruleWritesFailAfterClose(c *Check, p *Program, rule string) {
+	en := stateEnum(p)
+	closed := vset{{en["closedState"], en["closedState"]}}
+	for _, name := range []string{"Writer.Write", "Writer.ReadFrom"} {
+		fn := findFn(c, p, rule, "", name)
+		if fn == nil {
+			continue
+		}
+		sv := stateLoadOf(fn)
+		if sv == nil {
+			c.Unknown(rule, name+"#fails-after-close", p.Pos(fn.Pos()), "writes after Close fail", "no load of the lifecycle state in "+name)
+			continue
+		}
+		sets := valueSetsAt(fn, sv, sv.(ssa.Instruction).Block(), 8)
+		bad := ""
+		n := 0
+		allInstrs(fn, func(in ssa.Instruction) {
+			r, ok := in.(*ssa.Return)
+			if !ok || len(r.Results) != 2 {
+				return
+			}
+			if len(sets[in.Block()].intersect(closed)) == 0 {
+				return
+			}
+			// the state word is not tested again after the dispatch: returns further down are reached in other states
+			// too; only those that lie in a block whose value set is confined to the closed/error arm count
+			if len(sets[in.Block()].intersect(vset{{en["writeState"], en["writeState"]}, {en["newState"], en["newState"]}}.norm())) != 0 {
+				return
+			}
+			n++
+			res := r.Results[1]
+			if ld, isLd := res.(*ssa.UnOp); isLd && ld.Op == token.MUL {
+				if al, isAl := ld.X.(*ssa.Alloc); isAl {
+					// named result: the value stored in this block
+					for _, j := range in.Block().Instrs {
+						if st, isS := j.(*ssa.Store); isS && st.Addr == ssa.Value(al) {
+							res = st.Val
+						}
+					}
+				}
+			}
+			if mayBeNilErr(res, in.Block()) {
+				bad = p.InstrPos(in)
+			}
+		})
+		c.Sites++
+		c.Cond(n > 0 && bad == "", rule, name+"#fails-after-close", p.Pos(fn.Pos()), "in closedState "+name+" returns an error that cannot be nil", fmt.Sprintf("%d return(s) confined to the closed arm, each with a definite error", n), "the return at "+bad+" hands out the error latch, which is empty after a clean Close: the call reports (0, nil) and the data is silently dropped")
+	}
+}
